@@ -1,5 +1,10 @@
 pub mod echo;
 pub mod lex;
+pub mod mem;
+pub mod memrw;
+pub mod memts;
+pub mod scope;
+pub mod selpure;
 
 pub type LaneFn = fn(&str) -> String;
 
@@ -7,6 +12,11 @@ pub fn find(name: &str) -> Option<LaneFn> {
     Some(match name {
         "echo" => echo::run,
         "lex" => lex::run,
+        "mem" => mem::run,
+        "memrw" => memrw::run,
+        "memts" => memts::run,
+        "scope" => scope::run,
+        "selpure" => selpure::run,
         _ => return None,
     })
 }
